@@ -93,6 +93,12 @@ def generate(g, tier):
             if new != lines[i] and not new.startswith(unit * d + unit) or kind == 'overdeep':
                 bad = lines[:i] + [new] + lines[i + 1:]
                 cases.append(dict(op='compile', src=dict(text='\n'.join(bad)), meta=dict(family='ill-' + kind, badline=i + 1)))
+        # indentation that only LOOKS like the unit: a no-break / ideographic / em space (white space to Python, not the unit)
+        if len(unit) >= 2 and unit.strip(' ') == '':
+            odd = r.choice(['\u00a0', '\u3000', '\u2003', '\x0c'])
+            bad_unit = r.choice([unit[:-1] + odd, odd + unit[1:], unit + odd])
+            bad = ['IF TRUE', unit + 'STRING a', bad_unit + 'STRING b', 'STRING c']
+            cases.append(dict(op='compile', src=dict(text='\n'.join(bad)), meta=dict(family='ill-lookalike', badline=3)))
         # an indented first code line, after any number of blank lines
         nb = r.randint(0, 3)
         bad = [r.choice(['', ' ', '\t']) for _ in range(nb)] + [unit + 'STRING orphan', 'STRING next']
@@ -128,7 +134,8 @@ def generate(g, tier):
         out = []
         for k in range(r.randint(1, 5)):
             if g.chance(0.4): lines.append(r.choice(['', ' ', '\t', base + unit, base + unit + '  ', unit * 5]))
-            t = r.choice(['x', 'y z', '  deeper', 'IF q', '$v']) + str(k)
+            t = r.choice(['x', 'y z', '  deeper', 'IF q', '$v', '  """', ' """doc"""', '  """ tail', '\t"""']) + (str(k) if g.chance(0.7) else '')
+            if t.strip() == '': t = 'x' + str(k)
             lines.append(base + unit + t)
             out.append(t if cmd == 'IGNORE' else f'{cmd} ' + (t.strip() if cmd in ('HOLD', 'ALTSTRING') else t))
         if g.chance(0.4): lines.append(r.choice(['', '  ', base + unit]))
